@@ -250,6 +250,8 @@ def render_body(p, kind, hk):
     opts = ""
     if p.joiner == "Stamp" and getattr(p, "joiner_spelling", None) and not asy:
         opts = "custom_joiner(%s) " % p.joiner_spelling
+    elif p.joiner == "Lazy" and getattr(p, "joiner_spelling", None) and not asy:
+        opts = "custom_joiner(%s) lazy_branches(true) " % p.joiner_spelling
     elif p.joiner == "Stamp":
         opts = "custom_joiner(%s) " % (("jnta!" if kind.startswith("try_") else "jna!") if asy else "jn!")
     elif p.joiner == "Lazy":
@@ -610,6 +612,20 @@ def gen_joiner_spelling_matrix(pid0):
                     steps.append([Act("AndThen", p.nid()), Act("Map", p.nid())])
                 p.branches.append({"named": False, "mut": False, "steps": steps})
             p.no_async = True
+            progs.append((p, False))
+            pid += 1
+    # a function joiner with lazy branches: the closures it receives have a new type in every joined step
+    for sp in ("jfl2", "vrt::probes::jfl2::<_, _, _, _>", "(|a, b| jfl2(a, b))"):
+        for depths in ((2, 2), (3, 3), (3, 2)):
+            p = Prog(pid)
+            p.joiner = "Lazy"
+            p.joiner_spelling = sp
+            p.tags = ["joiner", "rand", "joinspell"]
+            for d in depths:
+                steps = [[Act("Src", p.nid()), Act("Map", p.nid())]]
+                for k in range(1, d):
+                    steps.append([Act("AndThen", p.nid()), Act("Map", p.nid())])
+                p.branches.append({"named": False, "mut": False, "steps": steps})
             progs.append((p, False))
             pid += 1
     return progs
